@@ -16,8 +16,9 @@ The model follows the code branch by branch, exceptions included:
   to ASCII, blanks stripped, single underscores between digits removed, then
   `[sign] (digits [. digits*] | . digits) [(e|E) [sign] digits]` or `[sign] (inf | infinity | nan)`
   in any letter case;
-* the option loop looks at `optionname[0]` for a word that is not an option: `IndexError` when the
-  word is the empty string (reachable: `x ''`);
+* for a word that is not an option the loop looks at `optionname[:1]` (a slice: the empty word is
+  simply "not a valid option", ValueError; before the fix 4e949d4 it was `optionname[0]`, IndexError
+  on `x ''` — finding C15-S1);
 * `optionname in constructions` tests the KEYS of `constructions`, i.e. the graph type names
   (`simple`, `dag`, …), not the construction names — kept as it is;
 * `optionname in result` tests all keys of the dictionary built so far.
@@ -231,18 +232,15 @@ def consumeSaveInfo (dot : Bool) (ty : String) : List String → Except Err (Lis
 
 /-- the word is not an option of the graph type: which exception -/
 def badOption (dot : Bool) (ty : String) (name : String) : Err :=
-  match name.toList with
-  | [] => .indexError                           -- `optionname[0]` of the empty string
-  | c :: _ =>
-    if c = '-' then .valueError                 -- "Optional arguments as … should be before …"
-    else
-      -- the message lists `formats[graphtype] + list(constructions[graphtype].keys())`
-      match formatsOf dot ty with
+  if name.toList.take 1 = ['-'] then .valueError   -- `optionname[:1] == '-'`: "Optional arguments as … should be before …"
+  else
+    -- the message lists `formats[graphtype] + list(constructions[graphtype].keys())`
+    match formatsOf dot ty with
+    | .error e => e
+    | .ok _ =>
+      match constructionsOf ty with
       | .error e => e
-      | .ok _ =>
-        match constructionsOf ty with
-        | .error e => e
-        | .ok _ => .valueError                  -- "… is not a valid option for …"
+      | .ok _ => .valueError                    -- "… is not a valid option for …"
 
 /-- `while position < len(spec):` — one round per option -/
 def optionLoop (dot : Bool) (ty : String) : Nat → Parsed → List String → Except Err Parsed
